@@ -150,6 +150,31 @@ def _run_reg(cx, cfg, label):
     return cases
 
 
+def _run_regname(cx, thorough):
+    """user registries with the NAME of the user symbol chosen by TLC among the candidates outside the frozen vocabulary"""
+    ck = cx.ck
+    cfg = _cfg(ck, "MC_C02_regname", "MC_C02_regname_run", {"Thin": "TRUE", "CoefIdx": 1 + (ck.seed + 1) % 4, "VarMod": ck.q(4, 1), "VarSel": ck.seed % ck.q(4, 1)})
+    res = ck.tlc("MC_C02_regname", cfg, env={ENV: cx.path}, workers=1, coverage=False, timeout=3000,
+                 label="user registries: name of the user symbol = every candidate outside the frozen vocabulary (names of the tree's table, single letters, user-style names, variants of alternative names) x define_unit/add x prefixable")
+    data = cx.data
+    cases = []
+    for r in res.by_tag("HIST"):
+        c = {k: r[k] for k in ("sys", "h", "probes", "pairs", "snap", "names", "coefs", "exps", "uk", "ucls")}
+        k = r["uk"]
+        nm = data["names"][k - 1]["name"] if k <= len(data["names"]) else data["uextra"][k - len(data["names"]) - 1]["name"]
+        c["uname"] = nm
+        names = list(c["names"])
+        if names[-4:] != ["foo", "qux", "kfoo", "kqux"]:
+            raise MachineryFailure("user atoms of the registry instance moved")
+        names[-4], names[-2] = nm, "k" + nm
+        c["names"] = names
+        c["kind"] = "reg"
+        cases.append(c)
+    if len(cases) < 50 or not any(c["ucls"] == "core" and len(c["uname"]) == 1 for c in cases):
+        raise MachineryFailure("too few user-name cases exported")
+    return cases
+
+
 def _validate_reg(cx, cases, obs, label):
     ck = cx.ck
     bad = [o for o in obs if "_error" in o]
@@ -168,7 +193,7 @@ def _validate_reg(cx, cases, obs, label):
         for r in res.by_tag("T-FAIL") + res.by_tag("P-FAIL"):
             o = part[r["i"] - 1]
             case = cases[off + r["i"] - 1]
-            calls = [f"{e['op']}({e['sym']}@{o['sys'][e['r'] - 1]}#{e['r']}, {e['form']})" for e in o["h"]]
+            calls = [f"{e['op']}({o.get('uname', 'foo') if e['sym'] == 'foo' else e['sym']}@{o['sys'][e['r'] - 1]}#{e['r']}, {e['form']})" for e in o["h"]]
             d = r["detail"] if isinstance(r["detail"], dict) else {}
             if r["clause"].startswith("reg-convert"):
                 q = o["pairs"][r["idx"] - 1]
@@ -314,6 +339,7 @@ def run(ck):
 
     jobs = {"all": gen_all, "sys": gen_sys, "more": gen_more, "edit": gen_edit, "expr3": gen_expr3, "exprsim": gen_exprsim,
             "reg": gen_reg("MC_C02_reg_t" if thorough else "MC_C02_reg", "user registries: histories <= 3 calls (define_unit tuple/quantity, add, modify) over 2 registries x unit systems, one witness per state"),
+            "regname": lambda: _run_regname(cx, thorough),
             "regqux": gen_reg("MC_C02_reg_qux", "user registries: symbol qux defined over user symbol foo, then foo modified; histories <= 3")}
     if thorough:
         jobs["expr4"] = gen_expr4
@@ -386,13 +412,16 @@ def run(ck):
     # ---- user registries
     rcases = []
     rseen = set()
-    for k in ("reg", "regqux"):
+    for k in ("reg", "regqux", "regname"):
         for c in done[k]:
-            sig = json.dumps([c["sys"], [[e[f] for f in ("op", "r", "sym", "t", "c", "form", "pfx")] for e in c["h"]]])
+            sig = json.dumps([c.get("uname", "foo"), c["sys"], [[e[f] for f in ("op", "r", "sym", "t", "c", "form", "pfx")] for e in c["h"]]])
             if sig not in rseen:
                 rseen.add(sig)
                 rcases.append(c)
     counts["registry_histories"] = len(rcases)
+    counts["user_symbol_names"] = len({c["uname"] for c in rcases if c.get("uk")})
+    counts["user_symbol_name_cases"] = sum(1 for c in rcases if c.get("uk"))
+    counts["user_symbol_names_in_tree_but_not_in_vocabulary"] = sorted({c["uname"] for c in rcases if c.get("ucls") == "tree"})[:40]
     counts["registry_probes"] = sum(len(c["probes"]) for c in rcases)
     counts["registry_conversion_pairs"] = sum(len(c["pairs"]) for c in rcases)
 
